@@ -318,7 +318,24 @@ def gen_description(rng: Any) -> dict[str, Any]:
     deps = rng.sample(DEPS, rng.choice([0, 0, 1, 2, 3]))
     extras = rng.sample(EXTRA_NAMES, rng.choice([0, 0, 1, 2]))
     d["deps"] = [[n2, spec, (rng.choice(extras) if extras and rng.random() < 0.5 else None)] for n2, spec in deps]
+    if d["deps"] and rng.random() < 0.3:
+        # a "multiple constraints" dependency: the same requirement twice under complementary python conditions (4th field);
+        # the two objects are equal under Dependency.__eq__, which ignores the condition
+        k = rng.randrange(len(d["deps"]))
+        n2, spec, ex = d["deps"][k]
+        cut = rng.choice(["3.9", "3.11"])
+        d["deps"][k:k + 1] = [[n2, spec, ex, "<" + cut], [n2, spec, ex, ">=" + cut]]
     return d
+
+
+def dep_fields(e: list[Any]) -> tuple[str, str, Any, Any]:
+    """(name, specifier, extra or None, python condition or None) of one entry of d["deps"]"""
+    return e[0], e[1], e[2], (e[3] if len(e) > 3 else None)
+
+
+def py_marker(py: str) -> str:
+    op = ">=" if py.startswith(">=") else "<"
+    return f'python_version {op} "{py[len(op):]}"'
 
 
 # ----------------------------------------------------------------------------------------
@@ -327,7 +344,8 @@ def gen_description(rng: Any) -> dict[str, Any]:
 
 def used_extras(d: dict[str, Any]) -> list[str]:
     out: list[str] = []
-    for _n, _s, ex in d["deps"]:
+    for e in d["deps"]:
+        ex = e[2]
         if ex and ex not in out:
             out.append(ex)
     return out
@@ -377,13 +395,16 @@ def render_project(d: dict[str, Any]) -> tuple[dict[str, Any], dict[str, str]] |
             p["readme"] = Inline({"file": nm, "content-type": d["readme_ctype"]})
         else:
             p["readme"] = nm
-    deps = [f"{n}{s}" for n, s, ex in d["deps"] if ex is None]
+    def req(e: list[Any]) -> str:
+        n, s, _ex, py = dep_fields(e)
+        return f"{n}{s}" + (f" ; {py_marker(py)}" if py else "")
+    deps = [req(e) for e in d["deps"] if e[2] is None]
     if deps:
         p["dependencies"] = deps
     opt: dict[str, list[str]] = {}
-    for n, s, ex in d["deps"]:
-        if ex is not None:
-            opt.setdefault(ex, []).append(f"{n}{s}")
+    for e in d["deps"]:
+        if e[2] is not None:
+            opt.setdefault(e[2], []).append(req(e))
     if opt:
         p["optional-dependencies"] = opt
     doc: dict[str, Any] = {"project": p}
@@ -429,14 +450,25 @@ def render_legacy(d: dict[str, Any]) -> tuple[dict[str, Any], dict[str, str]] | 
         for nm, content in d["readmes"]:
             files[nm] = content
         t["readme"] = d["readmes"][0][0] if len(d["readmes"]) == 1 else [nm for nm, _ in d["readmes"]]
-    for n, s, ex in d["deps"]:
-        deps[n] = s if ex is None else Inline({"version": s, "optional": True})
+    def table(e: list[Any]) -> Any:
+        _n, s, ex, py = dep_fields(e)
+        if ex is None and py is None:
+            return s
+        t2: dict[str, Any] = {"version": s}
+        if py:
+            t2["python"] = py
+        if ex is not None:
+            t2["optional"] = True
+        return Inline(t2)
+    for e in d["deps"]:
+        same = [x for x in d["deps"] if x[0] == e[0]]
+        deps[e[0]] = table(e) if len(same) == 1 else [table(x) for x in same]
     if deps:
         t["dependencies"] = deps
     extras: dict[str, list[str]] = {}
-    for n, _s, ex in d["deps"]:
-        if ex is not None:
-            extras.setdefault(ex, []).append(n)
+    for e in d["deps"]:
+        if e[2] is not None and e[0] not in extras.setdefault(e[2], []):
+            extras[e[2]].append(e[0])
     if extras:
         t["extras"] = extras
     return {"tool": {"poetry": t}}, files
@@ -894,7 +926,14 @@ def oracle(d: dict[str, Any], style: str, text: str) -> list[tuple[str, str]]:
                 bad.append(("Requires-Dist", f"unparsable {line!r}"))
                 continue
             seen.append((canonicalize_name(rq.name), str(rq.marker) if rq.marker else ""))
-        for n, _s, e in d["deps"]:
+        for ent in d["deps"]:
+            n, _s, e, py = dep_fields(ent)
+            if py:
+                # condition and membership both present in the marker of SOME line for that name (texts differ in parentheses)
+                if not any(nm == canonicalize_name(n) and py_marker(py) in mk2 and ((f'extra == "{pep685(e)}"' in mk2) if e else "extra" not in mk2)
+                           for nm, mk2 in seen):
+                    bad.append(("Requires-Dist", f"dependency {n} (python {py}, extra {e}) not found in {rd!r}"))
+                continue
             mk = f'extra == "{pep685(e)}"' if e else ""
             if (canonicalize_name(n), mk) not in seen:
                 bad.append(("Requires-Dist", f"dependency {n} (extra {e}) not found in {rd!r}"))
